@@ -27,6 +27,7 @@ import (
 	old_faithful_grpc "github.com/rpcpool/yellowstone-faithful/old-faithful-proto/old-faithful-grpc"
 	"github.com/rpcpool/yellowstone-faithful/slottools"
 	solanatxmetaparsers "github.com/rpcpool/yellowstone-faithful/solana-tx-meta-parsers"
+	"github.com/rpcpool/yellowstone-faithful/third_party/solana_proto/confirmed_block"
 	"github.com/rpcpool/yellowstone-faithful/tooling"
 	"golang.org/x/sync/errgroup"
 	"google.golang.org/grpc"
@@ -763,12 +764,7 @@ func (multi *MultiEpoch) processSlotTransactions(
 			hasOne := false
 			for _, acc := range filter.AccountInclude {
 				pkey := solana.MustPublicKeyFromBase58(acc)
-				ok, err := tx.HasAccount(pkey)
-				if err != nil {
-					klog.V(2).Infof("Failed to check if transaction %v has account %s", tx, acc)
-					return false
-				}
-				if ok {
+				if txMentionsAccount(&tx, meta, pkey) {
 					hasOne = true
 					break // Found at least one included account, no need to check others
 				}
@@ -780,24 +776,14 @@ func (multi *MultiEpoch) processSlotTransactions(
 
 		for _, acc := range filter.AccountExclude {
 			pkey := solana.MustPublicKeyFromBase58(acc)
-			ok, err := tx.HasAccount(pkey)
-			if err != nil {
-				klog.V(2).Infof("Failed to check if transaction %v has account %s", tx, acc)
-				return false
-			}
-			if ok { // If any excluded account is present, filter out the transaction
+			if txMentionsAccount(&tx, meta, pkey) { // If any excluded account is present, filter out the transaction
 				return false
 			}
 		}
 
 		for _, acc := range filter.AccountRequired {
 			pkey := solana.MustPublicKeyFromBase58(acc)
-			ok, err := tx.HasAccount(pkey)
-			if err != nil {
-				klog.V(2).Infof("Failed to check if transaction %v has account %s", tx, acc)
-				return false
-			}
-			if !ok { // If any required account is missing, filter out the transaction
+			if !txMentionsAccount(&tx, meta, pkey) { // If any required account is missing, filter out the transaction
 				return false
 			}
 		}
@@ -1030,6 +1016,29 @@ func (multi *MultiEpoch) processSlotTransactions(
 
 		return nil
 	}
+}
+
+// txMentionsAccount reports whether the account is one of the transaction's static account
+// keys or one of the accounts it loaded through address lookup tables (as recorded in the
+// metadata). This is the same notion of "mentions" the address index is built with;
+// solana.Transaction.HasAccount cannot be used here: it fails on every transaction that uses
+// lookup tables, because the tables are not resolved.
+func txMentionsAccount(tx *solana.Transaction, meta any, account solana.PublicKey) bool {
+	for _, key := range tx.Message.AccountKeys {
+		if key == account {
+			return true
+		}
+	}
+	if pbMeta, ok := meta.(*confirmed_block.TransactionStatusMeta); ok && pbMeta != nil {
+		for _, keys := range [][][]byte{pbMeta.LoadedWritableAddresses, pbMeta.LoadedReadonlyAddresses} {
+			for _, key := range byteSlicesToKeySlice(keys) {
+				if key == account {
+					return true
+				}
+			}
+		}
+	}
+	return false
 }
 
 type txBuffer struct {
